@@ -132,7 +132,80 @@ def fam_conv():
     ]
 
 
-def families(tier):
+def bshape(a, b):
+    """numpy broadcast of two shapes (tuples)"""
+    n = max(len(a), len(b))
+    a2 = (1,) * (n - len(a)) + tuple(a)
+    b2 = (1,) * (n - len(b)) + tuple(b)
+    return tuple(max(x, y) for x, y in zip(a2, b2))
+
+
+def fam_random_arith(st, cls, count, rng):
+    """Random arithmetic DAGs with mixed shapes: products (3-out-of-3 results) of different sizes meet in
+    broadcasting Add/Subtract/Multiply, sums and slices -- the inputs of the resharing planner."""
+    shapes = [(), (3,), (2, 3), (2, 1)]
+    out = []
+    for k in range(count):
+        n_in = rng.randint(2, 4)
+        nodes, shs = [], []
+        for _ in range(n_in):
+            sh = rng.choice(shapes)
+            nodes.append(inp(T(st, list(sh))))
+            shs.append(sh)
+        for _ in range(rng.randint(3, 6)):
+            kind = rng.choice(["mul", "mul", "add", "add", "sub", "sum", "slice", "mul"])
+            if kind in ("mul", "add", "sub"):
+                a, b = rng.randint(1, len(nodes)), rng.randint(1, len(nodes))
+                sa, sb = shs[a - 1], shs[b - 1]
+                try:
+                    r = bshape(sa, sb)
+                    ok = all(x == y or x == 1 or y == 1 for x, y in zip((1,) * (len(r) - len(sa)) + sa, (1,) * (len(r) - len(sb)) + sb))
+                except Exception:
+                    ok = False
+                if not ok:
+                    continue
+                nodes.append(nd({"mul": "Multiply", "add": "Add", "sub": "Subtract"}[kind], [a, b]))
+                shs.append(r)
+            elif kind == "sum":
+                cands = [i + 1 for i, s0 in enumerate(shs) if len(s0) >= 1]
+                if not cands:
+                    continue
+                a = rng.choice(cands)
+                ax = rng.randrange(len(shs[a - 1]))
+                nodes.append(nd("Sum", [a], axes=[ax]))
+                shs.append(tuple(d for i, d in enumerate(shs[a - 1]) if i != ax))
+            elif kind == "slice":
+                cands = [i + 1 for i, s0 in enumerate(shs) if len(s0) == 2]
+                if not cands:
+                    continue
+                a = rng.choice(cands)
+                nodes.append(nd("GetSlice", [a], slice=[idx(rng.randrange(shs[a - 1][0]))]))
+                shs.append(shs[a - 1][1:])
+        if len(nodes) > n_in:
+            out.append(("rand_arith_%s_%d" % (st, k), prog(nodes), n_in, cls))
+    return out
+
+
+def fam_reshare(st, cls):
+    """Shapes the resharing planner has to get right: 3-out-of-3 values (products of private values) of different
+    sizes meeting in broadcasting operations, consumed by operations that need 2-out-of-3 inputs or by the output."""
+    full, small, col = A(st, [2, 3]), A(st, [3]), A(st, [2, 1])
+    r = []
+    for opn in ("Add", "Subtract"):
+        r.append(("prod_full_%s_prod_small_%s" % (opn, st), prog([inp(full), inp(full), inp(small), inp(small),
+                  nd("Multiply", [1, 2]), nd("Multiply", [3, 4]), nd(opn, [5, 6])]), 4, cls))
+        r.append(("prod_small_%s_prod_full_%s" % (opn, st), prog([inp(full), inp(full), inp(small), inp(small),
+                  nd("Multiply", [3, 4]), nd("Multiply", [1, 2]), nd(opn, [5, 6])]), 4, cls))
+        r.append(("prod_full_%s_prod_col_then_mul_%s" % (opn, st), prog([inp(full), inp(full), inp(col), inp(col),
+                  nd("Multiply", [1, 2]), nd("Multiply", [3, 4]), nd(opn, [5, 6]), nd("Multiply", [7, 1])]), 4, cls))
+    r.append(("prod_small_plus_input_full_" + st, prog([inp(full), inp(small), inp(small), nd("Multiply", [2, 3]), nd("Add", [4, 1])]), 3, cls))
+    r.append(("prod_full_sum_mul_" + st, prog([inp(full), inp(full), inp(small), nd("Multiply", [1, 2]), nd("Sum", [4], axes=[0]), nd("Multiply", [5, 3])]), 3, cls))
+    r.append(("stack_prods_" + st, prog([inp(small), inp(small), inp(S(st)), inp(S(st)), nd("Multiply", [1, 2]), nd("Multiply", [3, 4]), nd("Stack", [5, 6], sh=[2])]), 4, cls))
+    r.append(("two_prods_slice_" + st, prog([inp(full), inp(full), inp(small), nd("Multiply", [1, 2]), nd("GetSlice", [4], slice=[idx(1)]), nd("Multiply", [5, 3]), nd("Add", [6, 4])]), 3, cls))
+    return r
+
+
+def families(tier, seed=0):
     fs = []
     fs += fam_binary("b", "bit", shapes=((), (2,)))
     fs += fam_chain("b", "bit")
@@ -142,6 +215,11 @@ def families(tier):
     fs += fam_linear("b", "bit")
     fs += fam_struct("b", "bit")
     fs += fam_mixed()
+    fs += fam_reshare("b", "bit")
+    fs += fam_reshare("i32", "ring")
+    rng = random.Random(seed * 7919 + 13)
+    fs += fam_random_arith("b", "bit", 25 if tier == "quick" else 300, rng)
+    fs += fam_random_arith("i32", "ring", 10 if tier == "quick" else 150, rng)
     if tier == "thorough":
         fs += fam_binary("u8", "ring", shapes=((), (2,)))
         fs += fam_linear("i16", "ring")
@@ -182,7 +260,7 @@ def jobs(tier, seed, per_prog=None, only_cls=None):
     rng = random.Random(seed)
     js = []
     jid = 0
-    for name, p, n, cls in families(tier):
+    for name, p, n, cls in families(tier, seed):
         if only_cls and cls not in only_cls:
             continue
         for ow, outs, mode in configs(n, tier, rng, per_prog):
